@@ -291,13 +291,22 @@ def check_topo(model, R, P, B=None):
     return B
 
 
-def _children_loops(d):
+def _children_loops(d, fnode=None):
     out = []
+    # temporaries bound inside the traversal (children = node._children): a name bound once in d to an attribute expression
+    tmp = {}
+    for n in ast.walk(d):
+        if isinstance(n, ast.Assign) and len(n.targets) == 1 and isinstance(n.targets[0], ast.Name):
+            tmp.setdefault(n.targets[0].id, []).append(n.value)
     for n in ast.walk(d):
         if isinstance(n, ast.For):
             it = n.iter
             if isinstance(it, ast.Call) and dotted(it.func) in ('reversed', 'list', 'tuple') and it.args:
                 it = it.args[0]
+            if isinstance(it, ast.Name) and len(tmp.get(it.id, [])) == 1:
+                it = tmp[it.id][0]
+                if isinstance(it, ast.Call) and dotted(it.func) in ('reversed', 'list', 'tuple') and it.args:
+                    it = it.args[0]
             if isinstance(it, ast.Attribute) and it.attr == '_children':
                 out.append((n, it.value))
     return out
